@@ -110,6 +110,12 @@ pub fn slice_decode(vocab: &Vocab, seen: &Seen, src: &str, out: &mut BTreeSet<St
         let g = seen.tree.at(path).unwrap();
         match &g.v {
             GValue::Element(name) => {
+                if let Some(sp) = seen.span_info.get(SpanInfoKey::ElementStart(*n)) {
+                    if get(src, sp).is_some() && !(sp.start > 0 && src.as_bytes()[sp.start - 1] == b'<') {
+                        // the name as written starts right after '<'
+                        out.insert("element-start-span-is-not-the-whole-written-name".into());
+                    }
+                }
                 if let Some(slice) = seen.span_info.get(SpanInfoKey::ElementStart(*n)).and_then(|s| get(src, s)) {
                     let (p, l) = split_qname(slice);
                     let (local, ns, _) = &vocab.names[*name];
@@ -133,6 +139,13 @@ pub fn slice_decode(vocab: &Vocab, seen: &Seen, src: &str, out: &mut BTreeSet<St
                         }
                         let id = vocab.name(*a);
                         let (local, ns, _) = &vocab.names[*a];
+                        if let Some(sp) = seen.span_info.get(SpanInfoKey::AttributeName(*n, id)) {
+                            let before = if sp.start > 0 { src.as_bytes()[sp.start - 1] } else { 0 };
+                            if get(src, sp).is_some() && !matches!(before, b' ' | b'\t' | b'\n' | b'\r') {
+                                // an attribute name as written is preceded by white space
+                                out.insert("attribute-name-span-is-not-the-whole-written-name".into());
+                            }
+                        }
                         if let Some(slice) = seen.span_info.get(SpanInfoKey::AttributeName(*n, id)).and_then(|s| get(src, s)) {
                             let (p, l) = split_qname(slice);
                             stats.push(format!("c17.slice.attribute-name.{}", if p.is_empty() { "unprefixed" } else { "prefixed" }));
@@ -209,5 +222,16 @@ mod tests {
         assert_eq!(decode_run(false, "a<![CDATA[b").unwrap().0, "ab");
         assert_eq!(decode_run(false, "a<![CDATA[]]><![CDATA[c").unwrap().0, "ac");
         assert!(decode_run(false, "a<b").is_none());
+    }
+
+    /// Observation recorded in bin/props/C17.json: a name written `:local` (accepted by xmlparser
+    /// and xot) gets the span of `local` alone.
+    #[test]
+    fn colon_first_name() {
+        let mut xot = xot::Xot::new();
+        let (doc, spans) = xot.parse_with_span_info("<:a/>").unwrap();
+        let e = xot.document_element(doc).unwrap();
+        let s = spans.get(xot::SpanInfoKey::ElementStart(e)).unwrap();
+        assert_eq!((s.start, s.end), (2, 3));
     }
 }
